@@ -10,15 +10,27 @@ claimed = {
  "C01": ("proptest over type x shape x axis x layout x values x boundary-constructed q x strategy x API x pivot scripts + bounded-exhaustive patterns x ALL pivot sequences; oracle = full sort + documented index, exact integer/dyadic acceptance",
          "Every lane of every generated array is compared with the strategy applied to its fully sorted copy at floor/ceil((N-1)q), for q constructed on, one and two ulps around every index boundary and .5 fraction; results must be identical under different pivot scripts. Small patterns are complete over all pivot sequences. The Midpoint/Linear difference-overflow defect is an open known finding and routed by its exact signature.",
          "Accepts either reading of '(N-1)q' (IEEE product as the code evaluates it, or exact rational) where they differ; Nearest tie at exactly .5 accepts either neighbour; N64 Midpoint/Linear tolerance 4 ulp of the larger neighbour.", "5/C01"),
+ "C03": ("proptest over every mutating entry point on views into a sentinel-filled parent; oracle = guard elements bit-identical + per-lane multiset of bit patterns",
+         "Each in-place routine is run on generated views (permuted axes, steps, reversal, padding) of every dimensionality it supports; the whole parent buffer is compared before/after, so writes outside the view, lost/duplicated elements and movement between lanes are all visible.",
+         "A guard overwritten with a value equal to the sentinel would be missed (the sentinel is a value the generators do not produce).", "5/C03"),
  "C04": ("bounded-exhaustive enumeration of missing-masks x 14 MaybeNan impls x strides x offsets + proptest; metadata-first aliasing oracle, multiset/determinism/idempotence",
          "Complete over all masks up to length 12/16 for every MaybeNan impl and stride in {-3..3}\\{0}; the returned view's pointer/length/stride are checked to designate only distinct elements of the input view before anything is read.",
          "Address arithmetic on the returned view's metadata is done by the harness; reading through NotNan is avoided (its Deref is UB on a missing value).", "5/C04"),
  "C02": ("bounded-exhaustive enumeration of weak-order patterns x requests x ALL pivot sequences (DFS through a pivot hook) + proptest with scripted pivots, oracle = full sort",
          "Complete over order patterns and pivot sequences up to the stated length (the routine can only compare and clone, so longer inputs differ only in pattern), random search with adversarial pivot scripts beyond it; every execution is compared with a full sort, the partition post-condition and the multiset.",
          "Trusts std sort, ndarray slicing and the pivot hook (which replaces the drawn pivot only when a script is installed).", "5/C02"),
+ "C14": ("proptest over type x shape x axis x layout x mask x q x strategy x pivots; differential oracle = plain operation on harness-filtered data (quantiles via the C01 oracle)",
+         "All nine skip-NaN operations are exercised on every generated array and compared with the plain operation on the data with missing values deleted, lane by lane for the per-axis forms; folds/visits are checked to see each remaining element exactly once.",
+         "Value data are small integers / halves so that Midpoint/Linear stay inside the representable range; the known Midpoint/Linear overflow finding is routed by signature as in C01.", "5/C14"),
  "C15": ("bounded-exhaustive enumeration of weak-order patterns x pivot positions x strides + proptest, oracle = rank by counting",
          "Complete over order patterns, pivot positions and five view strides up to length 7/8; random arrays up to 500 elements beyond it. Both build profiles.",
          "Trusts ndarray slicing to build the strided views.", "5/C15"),
+ "C18": ("proptest differential: bulk call vs single-item calls on fresh copies (quantiles, selection, moments bit-for-bit, per-axis weighted forms vs lane routine)",
+         "Request lists with forced repeats and shared lower/higher indexes, any order, 0..32 items; every slice of every bulk result is compared with its single-item counterpart; moments bitwise; per-axis forms also against exact integer sums.",
+         "Float per-axis forms are required to agree within the summation budget (they were bit-identical in every run; reported as a class).", "5/C18"),
+ "C19": ("proptest metamorphic/order laws + all permutations of small lanes; no value oracle",
+         "Monotonicity in q, end points, Lower<=X<=Higher, coincidence at integral index, permutation invariance (complete for lanes up to 6/8), commutation with strictly increasing relabellings.",
+         "Float Midpoint/Linear relations allow 2 ulp of the largest lane magnitude.", "5/C19"),
  "C16": ("enumerated out-of-range/in-range decision table x ALL pivot sequences in two build profiles + proptest, oracle = unwinds iff some position >= length",
          "Every out-of-range position class on every order pattern up to length 6/7 under every pivot sequence, with and without debug assertions/overflow checks; Bins/Grid index by generated cases.",
          "'Every build profile' is sampled as two profiles (all checks on / all off).", "5/C16"),
